@@ -44,9 +44,8 @@ def sem_fn(variant_export, feature, forms, mock_api, maybe_send):
     ex = val("export")
     ex = (variant_export if ex is None else ex)                     # variant default unless explicit; =false == omitted
     um = val("unimock")
-    um = (True if (um is None and feature) else ("absent" if um is None else um))
-    ma = val("mockall")
-    ma = "absent" if ma is None else ma
+    um = (feature if um is None else um)                            # table: default false, true with the crate feature
+    ma = val("mockall") or False                                    # table: default false
     return ("nd", nd, "ex", ex, "um", um, "ma", ma, "api", mock_api, "send", not maybe_send)
 
 
@@ -94,7 +93,7 @@ def trait_invocations():
                     continue  # a delegation target needs delegate_by (C15's business)
                 um = True if "unimock" in sel else None
                 for variant, feature in (("entrait", False), ("entrait", True)):
-                    u = um if um is not None else (True if feature else "absent")
+                    u = um if um is not None else feature
                     key = ("lead", lead, "um", u, "ma", "mockall" in sel, "api", "mock_api = TMock" in sel,
                            "send", "?Send" not in sel, "dg", "delegate_by = ref" in sel)
                     inv.append(dict(attr=", ".join(([lead] if lead else []) + list(sel)), variant=variant, feature=feature,
@@ -109,8 +108,8 @@ def trait_invocations():
                 parts.append(opt_text("mockall", fm))
             for feature in (False, True):
                 u = None if fu == "absent" else fu in ("bare", "true")
-                u = (True if (u is None and feature) else ("absent" if u is None else u))
-                m = "absent" if fm == "absent" else fm in ("bare", "true")
+                u = (feature if u is None else u)
+                m = False if fm == "absent" else fm in ("bare", "true")
                 inv.append(dict(attr=", ".join(parts), variant="entrait", feature=feature,
                                 key=("forms", "um", u, "ma", m), family="forms"))
     return inv
@@ -195,6 +194,7 @@ def is_rejection(rec):
 
 def evaluate(states, report, tier):
     outputs = {}
+    nested = {}
     units = {}
     for feature in (False, True):
         group = [s for s in states if s["feature"] == feature]
@@ -210,6 +210,7 @@ def evaluate(states, report, tier):
                 # outer invocation + the nested one on the generated trait. Only the outer expansion is compared: the nested
                 # invocation's *input* depends on whether rustc could resolve the unimock attribute before it (crate feature)
                 outputs[s["key"]] = recs[0]
+                nested[s["key"]] = recs[1]
             else:
                 outputs[s["key"]] = recs[0] if len(recs) == 1 else None
     # group by (item, semantic key)
@@ -253,6 +254,17 @@ def evaluate(states, report, tier):
                                  "#[%s(%s)] (feature %s) expands differently from the equivalent #[%s(%s)] (feature %s)\n%s\n  vs\n%s"
                                  % (s["variant"], s["attr"], s["feature"], rep["variant"], rep["attr"], rep["feature"],
                                     rec["output"][:1500], rrec["output"][:1500])))
+        # concrete dependency: the expansion is finished by a nested invocation on the generated trait. Where the outer arguments set
+        # `unimock` explicitly the END result may not depend on the crate feature either (the nested invocation must not fall back to it)
+        if not problems and s["item"] == "fnconc" and "unimock" in s["attr"] and s["key"] in nested and rep["key"] in nested:
+            a, b = nested[s["key"]], nested[rep["key"]]
+            if "output_tt" in a and "output_tt" in b and engine.tt_strict(a["input_tt"]) == engine.tt_strict(b["input_tt"]) \
+                    and engine.tt_strict(a["output_tt"]) != engine.tt_strict(b["output_tt"]):
+                problems.append(("nested-expansion-differs-from-equivalent:" + s["family"],
+                                 "#[%s(%s)] (feature %s) and the equivalent #[%s(%s)] (feature %s) hand the same trait to the nested invocation "
+                                 "(#[entrait(%s)] / #[entrait(%s)]) but end up with different code\n%s\n  vs\n%s"
+                                 % (s["variant"], s["attr"], s["feature"], rep["variant"], rep["attr"], rep["feature"], a.get("attr"), b.get("attr"),
+                                    a["output"][:1200], b["output"][:1200])))
         model = s.get("key_sem") or ("accept" if s.get("accept") else "reject")
         report.observe(s["key"], model, observed if not problems else [p[0] for p in problems], nontrivial=bool(s["attr"]),
                        sample=dict(invocation="#[::entrait::%s(%s)] on %s, unimock feature %s" % (s["variant"], s["attr"], s["item"], s["feature"]),
